@@ -326,9 +326,9 @@ func knownNonNilError(v ssa.Value) bool {
 
 // SuccessExit is a return that may deliver a nil error (or `true`, for bool deciders).
 type SuccessExit struct {
-	Ret  *ssa.Return
-	Via  *ssa.Call // non-nil: the result is this call's result (tail call); success is conditional on it
-	Phi  bool
+	Ret *ssa.Return
+	Via *ssa.Call // non-nil: the result is this call's result (tail call); success is conditional on it
+	Phi bool
 }
 
 // successExits returns the returns of fn whose result #idx may be nil (error deciders).
